@@ -2,6 +2,7 @@
 // This is the only TU (besides the three library sources) that includes the Clipper2 headers, so all
 // header-only library code is instantiated here, inside libclipsim.so, compiled with the sanitizers and
 // -fsanitize-coverage=trace-pc-guard. It keeps no mutable static storage of its own.
+#include <type_traits>
 #include "clipper2/clipper.h"
 #include "work_int.h"
 #include <cinttypes>
@@ -324,6 +325,13 @@ static void h_new_off(Ctx& c, const Op& op, int idx, OpResult& r) {
 }
 // copy construction (i[0] == 0, destination slot empty) or copy assignment (i[0] == 1, destination of the same type) of the
 // copyable library objects: ClipperOffset, RectClip64, RectClipLines64. The copy carries the logical state of its source.
+// (defined in workcopy_off.cpp / workcopy_rc.cpp, which build.py may have to compile as stubs: nullptr / false = not copyable)
+}   // (leave the anonymous namespace: these have external linkage in namespace sim)
+Clipper2Lib::ClipperOffset* sim_clone_off(const Clipper2Lib::ClipperOffset&);
+bool sim_assign_off(Clipper2Lib::ClipperOffset&, const Clipper2Lib::ClipperOffset&);
+Clipper2Lib::RectClip64* sim_clone_rc(const Clipper2Lib::RectClip64&);
+Clipper2Lib::RectClipLines64* sim_clone_rcl(const Clipper2Lib::RectClipLines64&);
+namespace {
 static void h_copy(Ctx& c, const Op& op, int idx, OpResult& r) {
   Obj* s = c.get(op.o); Obj* d = c.get(op.o2);
   if (!s || !d || s == d || op.o >= 100 || op.o2 >= 100 || s->poisoned) SKIP(r);
@@ -331,13 +339,15 @@ static void h_copy(Ctx& c, const Op& op, int idx, OpResult& r) {
   bool assign = ai(op, 0) == 1 && s->type == T_OFF;      // the rectangle clippers have const members: copy construction only
   if (assign ? (d->type != s->type || d->poisoned) : (d->type != T_NONE)) SKIP(r);
   if (assign) {
-    { Scope sc(idx); *d->off = *s->off; }
+    bool done; { Scope sc(idx); done = sim_assign_off(*d->off, *s->off); }
+    if (!done) SKIP(r);
     ClipperOffset* po = d->off; RectClip64* pr = d->rc; RectClipLines64* pl = d->rcl; int ne = d->n_exec, nc = d->n_clear;
     *d = *s; d->off = po; d->rc = pr; d->rcl = pl; d->n_exec += ne; d->n_clear += nc; d->hist += 'k';
     return;
   }
   Obj n = *s; n.off = nullptr; n.rc = nullptr; n.rcl = nullptr;
-  { Scope sc(idx); if (s->type == T_OFF) n.off = new ClipperOffset(*s->off); else if (s->type == T_RC) n.rc = new RectClip64(*s->rc); else n.rcl = new RectClipLines64(*s->rcl); }
+  { Scope sc(idx); if (s->type == T_OFF) n.off = sim_clone_off(*s->off); else if (s->type == T_RC) n.rc = sim_clone_rc(*s->rc); else n.rcl = sim_clone_rcl(*s->rcl); }
+  if (!n.off && !n.rc && !n.rcl) SKIP(r);
   n.hist += 'k';
   *d = n;
 }
